@@ -109,6 +109,28 @@ theorem yesno_default (v : V) :
   split <;> simp_all
   split <;> simp_all
 
+/-! ### edges that were wrong once (D52–D54, D58), now theorems about the model the suites tie to the code -/
+
+/-- `join` with an empty separator joins the items of a list (it used to print the list's
+    placeholder text); only a string input comes back as it is -/
+theorem join_empty_separator_list (ty : Bytes) (xs : List Val) :
+    applyFilter b!"join" ⟨.list ty xs, false⟩ ⟨.str [], false⟩ = .ok ⟨.str (Bytes.join [] (xs.map Val.toS)), false⟩ := by
+  simp [applyFilter, Val.canSlice, Val.isString, Val.rkind, Val.kind, Val.resolved, Val.toS, Val.toStr, Val.isNil, mkStr, joinVals, Val.reflected]
+
+/-- `pluralize`: a float is one only if it is 1.0 — 1.5 takes the plural -/
+theorem pluralize_float (f : Float) (h : (f == 1) = false) :
+    applyFilter b!"pluralize" ⟨.float f, false⟩ ⟨.nil, false⟩ = .ok ⟨.str b!"s", false⟩ := by
+  simp [applyFilter, Val.isNumber, Val.isInteger, Val.isFloat, Val.rkind, Val.kind, Val.resolved, Val.toFloat, Val.len, mkStr, h]
+
+/-- `ljust` / `center` measure the text that is padded, also when the input is a number -/
+theorem ljust_number (n w : Int64) :
+    let txt := (Val.int n).toS
+    let pad : Int := if w.toInt - (Utf8.runes txt).length < 0 then 0 else w.toInt - (Utf8.runes txt).length
+    applyFilter b!"ljust" ⟨.int n, false⟩ ⟨.int w, false⟩ =
+      if pad > maxCharPadding then .err "ljust: too much padding" else .ok ⟨.str (txt ++ Bytes.spaces pad.toNat), false⟩ := by
+  by_cases h : w.toInt - ((Utf8.runes (Val.int n).toS).length : Int) < 0 <;>
+    simp [applyFilter, Val.toInt, Val.resolved, mkStr, h]
+
 /-- the padding cap is the one in the code -/
 theorem gen_maxCharPadding : (Gen.maxCharPadding : Int) = maxCharPadding := by decide
 theorem gen_maxFloatFormatDecimals : (Gen.maxFloatFormatDecimals : Int) = maxFloatFormatDecimals := by decide
